@@ -22,6 +22,7 @@ import (
 	"os/exec"
 	"path/filepath"
 	"runtime/debug"
+	"sort"
 	"strconv"
 	"strings"
 	"syscall"
@@ -163,7 +164,7 @@ func childMain() {
 	}
 	log.SetLogLevelQuiet(log.Critical)
 	log.SetOutput(io.Discard)
-	if err := extensions.Init(nil); err != nil {
+	if err := extensions.Init(&extensions.Config{HasLoad: true, HasSave: true}); err != nil {
 		fmt.Println("child: init:", err)
 		os.Exit(3)
 	}
@@ -846,6 +847,81 @@ func emptyBodyLoops() []emptyLoop {
 	return out
 }
 
+// Every registered extension (enumerated at run time, so a future one is covered too) called ONCE, then something that
+// only a guard can stop: an extension must leave the deadline, the cancellation, the depth limit and the memory budget
+// of the evaluation as they were (read() swaps the context when there is a terminal; sleep, eval, unjson, load, save,
+// defun touch the context or a nested state).  No terminal, stdin at EOF.
+func extCall(name string, e object.Extension) string {
+	var args []string
+	for i := 0; i < e.MinArgs; i++ {
+		t := object.ANY
+		if i < len(e.ArgTypes) {
+			t = e.ArgTypes[i]
+		}
+		switch t {
+		case object.INTEGER:
+			args = append(args, "3")
+		case object.FLOAT:
+			args = append(args, "0.01")
+		case object.STRING:
+			args = append(args, `"x1"`)
+		case object.ARRAY:
+			args = append(args, "[1,2,3]")
+		case object.BOOLEAN:
+			args = append(args, "true")
+		case object.MAP:
+			args = append(args, `{"a":1}`)
+		case object.FUNC:
+			args = append(args, "func(x){x}")
+		default:
+			args = append(args, "1")
+		}
+	}
+	return "catch(" + name + "(" + strings.Join(args, ",") + "))"
+}
+
+var guardTails = []struct{ name, src, want string }{
+	{"loop", "for true {}", "deadline"},
+	{"rec", "func f9(n){1+f9(n+1)}; f9(0)", "depth deadline"},
+	{"alloc", "x9=[1,2,3]*6148914691236517206; len(x9)", "memory"},
+}
+
+func extensionsThenGuards(c *Ctx) {
+	exts := object.ExtraFunctions()
+	names := make([]string, 0, len(exts))
+	for n := range exts {
+		names = append(names, n)
+	}
+	sort.Strings(names)
+	c.Extra["extensions_enumerated"] = len(names)
+	var all []string
+	for _, n := range names {
+		all = append(all, extCall(n, exts[n]))
+	}
+	for _, t := range guardTails { // all of them in one program, then the tail
+		for _, wrap := range []string{"%s\n%s", "func w9(){ %s }\nw9()\n%s"} {
+			sp := childSpec{Src: fmt.Sprintf(wrap, strings.Join(all, "\n"), t.src), MaxDepth: 300, DurMs: 300, ASLimit: asLimit}
+			judge(c, "ext-all-then-"+t.name, sp, runChild(c, sp, memLimitStr, 8*time.Second), t.want)
+		}
+	}
+	// each extension alone (quick: the ones known to touch the context, a nested state or to block; thorough: all)
+	known := map[string]bool{"read": true, "sleep": true, "eval": true, "unjson": true, "load": true, "save": true, "defun": true, "eof": true, "time.now": true}
+	for i, n := range names {
+		for ti, t := range guardTails {
+			if !c.Thorough() && !(known[n] && ti == i%len(guardTails) || n == "read") {
+				continue
+			}
+			src := "r9 = " + extCall(n, exts[n]) + "\n" + t.src
+			sp := childSpec{Src: src, MaxDepth: 300, DurMs: 200, ASLimit: asLimit}
+			judge(c, "ext-then-"+t.name+":"+n, sp, runChild(c, sp, memLimitStr, 8*time.Second), t.want)
+			if c.Thorough() && ti == 0 {
+				sp = childSpec{Src: src, MaxDepth: 300, CancelMs: 150, ASLimit: asLimit}
+				judge(c, "ext-then-"+t.name+":"+n, sp, runChild(c, sp, memLimitStr, 8*time.Second), t.want)
+			}
+		}
+	}
+}
+
 type cfg struct {
 	depth, durMs int
 }
@@ -856,7 +932,7 @@ func runC09(c *Ctx) {
 		"observed threshold and at 10 / 400 / random"
 	log.SetLogLevelQuiet(log.Critical)
 	log.SetOutput(io.Discard)
-	if err := extensions.Init(nil); err != nil {
+	if err := extensions.Init(&extensions.Config{HasLoad: true, HasSave: true}); err != nil {
 		panic(err)
 	}
 	if c.ReplayCase != "" {
@@ -993,6 +1069,9 @@ func runC09(c *Ctx) {
 			judge(c, src.kind, sp, runChild(c, sp, memLimitStr, time.Duration(d)*time.Millisecond+12*time.Second), src.want)
 		}
 	}
+	// every registered extension once, then a loop / recursion / allocation that only a guard stops
+	extensionsThenGuards(c)
+
 	// loops with nothing to evaluate in the body: every form x body, alternating registers on / off and deadline / cancellation
 	//   (quick: each (form, body) once, placement and options rotating; thorough: everything)
 	for i, el := range emptyBodyLoops() {
